@@ -620,6 +620,14 @@ func (w *World) FinalStores() (map[string]string, error) {
 	return out, nil
 }
 
+// BuildStoresEnd: the block up to which the plan builds stores (ok=false when it builds none).
+func (w *World) BuildStoresEnd() (uint64, bool) {
+	if w.plan == nil || w.plan.BuildStores == nil {
+		return 0, false
+	}
+	return w.plan.BuildStores.ExclusiveEndBlock, true
+}
+
 // isMergeCmd recognises the closure returned by Stages.CmdTryMerge for an actual merge by its function symbol.
 func isMergeCmd(cmd loop.Cmd) bool {
 	f := runtime.FuncForPC(reflect.ValueOf(cmd).Pointer())
